@@ -132,7 +132,7 @@ end
 
 mutual
 /-- `ExprKind::matches` restricted to the forms a match pattern may take (anything else is
-rejected as a non-literal pattern anyway) -/
+rejected as a non-literal pattern anyway); struct literals compare field sets (`same_pattern`) -/
 def patEq : Expr → Expr → Bool
   | .unit, .unit => true
   | .int a, .int b => a == b
@@ -144,12 +144,16 @@ def patEq : Expr → Expr → Bool
   | .err a, .err b => patEq a b
   | .var a, .var b => a == b
   | .enumRef a b _, .enumRef c d _ => a == c && b == d
-  | .struct n fa sa, .struct m fb sb => n == m && patEqFields fa fb && sa == sb
+  | .struct n fa sa, .struct m fb sb =>
+    n == m && sa.isEmpty && sb.isEmpty && fa.length == fb.length && patEqFields fa fb
   | _, _ => false
+/-- every field of the first literal occurs, with the same pattern, in the second (`same_pattern`) -/
 def patEqFields : List (Nat × Expr) → List (Nat × Expr) → Bool
-  | [], [] => true
-  | (k, a) :: fa, (l, b) :: fb => k == l && patEq a b && patEqFields fa fb
-  | _, _ => false
+  | [], _ => true
+  | (k, a) :: fa, fb => patEqField k a fb && patEqFields fa fb
+def patEqField (k : Nat) (a : Expr) : List (Nat × Expr) → Bool
+  | [] => false
+  | (l, b) :: fb => (k == l && patEq a b) || patEqField k a fb
 end
 
 /-- state of the duplicate / unreachable / redundant pattern scan of `lower_match_…` -/
@@ -181,7 +185,9 @@ def scanVals : Scan → Bool → Bool → Bool → List Expr → Option Scan
 def scanPats : Scan → List Pat → Option Scan
   | s, [] => Option.some s
   | s, .default :: ps => scanPats s ps
-  | s, .values vs :: ps => match scanVals s false false false vs with
+  | s, .values vs :: ps =>
+    if vs.length > 1 && vs.any (fun v => (bindingOf v).isSome) then Option.none else
+    match scanVals s false false false vs with
     | Option.some s' => scanPats s' ps
     | Option.none => Option.none
 
@@ -267,7 +273,7 @@ def lowerExpr (cx : LCtx) (sc : Scopes) : Expr → Option (Expr × Ty)
     | Option.none => Option.none
     | Option.some d =>
       if sources.isEmpty then
-        (if findDup (fields.map (·.1)) then Option.none else
+        (if findDup (fields.map (·.1)) || !(d.all fun f => fields.any (·.1 == f.1)) then Option.none else
          match lowerFields cx sc d fields with
          | Option.some fs' => Option.some (.struct name fs' sources, .struct name)
          | Option.none => Option.none)
@@ -275,7 +281,8 @@ def lowerExpr (cx : LCtx) (sc : Scopes) : Expr → Option (Expr × Ty)
       else match expandSources cx sc d (fields.map (·.1)) sources [] with
         | Option.none => Option.none
         | Option.some extra =>
-          if findDup (fields.map (·.1) ++ extra.map (·.1)) then Option.none else
+          if findDup (fields.map (·.1) ++ extra.map (·.1)) ||
+             !(d.all fun f => fields.any (·.1 == f.1) || extra.any (·.1 == f.1)) then Option.none else
           match lowerFields cx sc d fields with
           | Option.some fs' => Option.some (.struct name (fs' ++ extra.map (fun x => (x.1, x.2.1))) sources, .struct name)
           | Option.none => Option.none
